@@ -92,6 +92,41 @@ def rEnv : R Expr.Env := do
     sym := fun s => match syms.find? (fun p => p.1 == s) with | some p => some p.2 | none => none,
     pc := pcv }
 
+
+def rCmd : R (Option Dbg.Cmd) := do
+  let t ← tok
+  match t with
+  | "n" => do let v ← int; pure (some (.next v))
+  | "s" => pure (some .step)
+  | "c" => pure (some .cont)
+  | "b" => do let v ← int; pure (some (.brk v))
+  | "x" => do let v ← int; pure (some (.clear v))
+  | "X" => pure (some .clearAll)
+  | "r" => pure (some .restart)
+  | "g" => do let v ← int; pure (some (.goto v))
+  | "f" => do
+    let w ← nat
+    let v ← bool
+    pure (some (.flag w v))
+  | "u" => pure none                     -- undo
+  | _ => fail s!"bad command tag {t}"
+
+def wDbg (dp : Dbg.DProg) (s : Dbg.State) : String :=
+  let vm := { s.vm with out := [], settings := { s.vm.settings with warning_count := 0 } }
+  let sh := match Dbg.shown dp s with | some l => l | none => -1
+  s!"{s.calls} {wList wInt s.breaks} {sh} {wVM vm}"
+
+def dbgLoop (dp : Dbg.DProg) (fuel : Nat) : List (Option Dbg.Cmd) → Dbg.Session → List String → List String
+  | [], _, acc => acc.reverse
+  | none :: rest, σ, acc =>
+    let σ' := σ.undo
+    dbgLoop dp fuel rest σ' (s!"ok {σ'.old.length} {wDbg dp σ'.cur}" :: acc)
+  | some c :: rest, σ, acc =>
+    match σ.run dp fuel c with
+    | .ok (some σ') => dbgLoop dp fuel rest σ' (s!"ok {σ'.old.length} {wDbg dp σ'.cur}" :: acc)
+    | .ok none => ("fuel" :: acc).reverse
+    | .error e => (s!"err {e.name}" :: acc).reverse
+
 def handle : R String := do
   let cmd ← tok
   match cmd with
@@ -270,6 +305,21 @@ def handle : R String := do
       | .ok v => s!"v {v}"
       | .error e => s!"e {wEvalErr e}")
     pure s!"ok {wList id outs}"
+  | "dbg" => do
+    -- dbg <fuel> <program> <group ids> <is-call flags> <lines> <vm> <commands>: a debugger session
+    let fuel ← nat
+    let p ← program
+    let group ← list nat
+    let isCall ← list bool
+    let line ← list int
+    let v ← vm
+    let cmds ← list rCmd
+    let dp : Dbg.DProg := { p, group, isCall, line }
+    match Dbg.initial dp v with
+    | .error e => pure s!"err {e.name}"
+    | .ok s0 =>
+      let outs := dbgLoop dp fuel cmds { cur := s0 } [s!"ok 0 {wDbg dp s0}"]
+      pure (String.intercalate " | " outs)
   | "wf" => do
     let v ← vm
     pure (wBool (wfb v))
